@@ -176,7 +176,7 @@ CLAIMED = {
         "text": "Rocq theorems over the model of all seven converters: C16_tables (the allow-lists regenerated from the source = the documented key sets; finite), C16_reject / "
                 "C16_reject_quadlet (for every unit, path, name table and environment, an undocumented key in the unit's own section or in [Quadlet] means no service is generated), "
                 "C16_error_names_key (the error is UnknownKey naming an undocumented key of the unit), C16_accept (documented keys only => never an UnknownKey error; by typing of the converter bodies "
-                "plus the prologue). Full over the model; the file name in the message and 'no service file, exit 1' are decided by the direct oracle (in-process and end to end).",
+                "plus the prologue), C16_reject_in_the_run_with_dropins (over the whole run with drop-ins, process_trees: an undocumented key in the own section or [Quadlet] of the main file OR OF ANY DROP-IN means the run has no service for that file, whatever the other files are; C16_dropin_unknown_key_example). Full over the model; the file name in the message and 'no service file, exit 1' are decided by the direct oracle (in-process and end to end).",
         "note": "Trusted: Coq kernel; tools/docs.py / Spec/Docs.v as the transcript of the documentation; the converter model (validated by differential runs on adversarial units of all types); extraction; driver.",
         "technique": "machine-checked proof in Rocq (Coq 8.16) over the converter model + regenerated tables + guard-call inventory + differential correspondence check",
         "design": "DESIGN.md §7 C16",
